@@ -376,7 +376,7 @@ def run_check(check_id, tier, seed):
         for v in unknown:
             k = v["oracle"] + " " + json.dumps(v.get("sig"), sort_keys=True)
             bysig[k] = bysig.get(k, 0) + 1
-        for k, n in sorted(bysig.items(), key=lambda kv: -kv[1])[:15]:
+        for k, n in sorted(bysig.items(), key=lambda kv: -kv[1])[:int(os.environ.get("VERIF_SHOW", "15"))]:
             print("    %6d  %s" % (n, k))
         return 1
     return 0
